@@ -27,6 +27,14 @@ type input struct {
 	PID   uint32                `json:"pid,omitempty"`
 	// e2e
 	Cfg *memasm.Config `json:"cfg,omitempty"`
+	// seq: flush requests processed one after the other on one flusher
+	Steps []seqStep `json:"steps,omitempty"`
+}
+
+type seqStep struct {
+	Redirty [][2]int `json:"redirty,omitempty"`
+	Addrs   []uint64 `json:"addrs,omitempty"`
+	PID     uint32   `json:"pid,omitempty"`
 }
 
 type obs struct {
@@ -94,32 +102,80 @@ func coqFlush(s0, s1 memasm.DirSnapshot, addrs []uint64, pid uint32) string {
 		hx.LN(addrs), hx.N(uint64(pid)), memasm.CoqDir(s0.Dir, true), memasm.CoqDir(s1.Dir, true))
 }
 
+func filterTag(addrs []uint64, pid uint32) string {
+	switch {
+	case len(addrs) == 0 && pid == 0:
+		return "filter:empty"
+	case len(addrs) > 0 && pid != 0:
+		return "filter:addr+pid"
+	case len(addrs) > 0:
+		return "filter:addr"
+	}
+	return "filter:pid"
+}
+
+// runE2E executes the script phase by phase: everything up to a flush op is
+// run to quiescence (the directory of the target is then snapshotted), then
+// the flush itself; after a flush of the LOWEST write-back level the written
+// lines are read directly from the backing Storage.
 func runE2E(in input) (hx.Case, error) {
 	cfg := *in.Cfg
-	// split the script: data ops first, then the control tail [drain Li, flush Li]*
-	var data, tail []memasm.Op
-	for _, op := range cfg.Script {
-		if op.Kind == "C" {
-			tail = append(tail, op)
-		} else {
-			data = append(data, op)
+	script := cfg.Script
+	cfg.Script = nil
+	a := memasm.Build(cfg)
+	lowestWB := -1
+	for i, cc := range cfg.Caches {
+		if cc.Kind == "writeback" {
+			lowestWB = i
 		}
 	}
-	cfg.Script = data
-	a := memasm.Build(cfg)
 	o := obs{CtrlOK: true}
 	var fls []string
-	nsel := 0
+	var tags []string
+	nsel, nchecks := 0, 0
+	writtenLines := func() ([]uint64, map[uint64]uint32) {
+		acked := map[uint64]bool{}
+		for _, e := range a.Agent.Log {
+			if e.Kind == "recv" && e.Op == "A" {
+				acked[e.RspTo] = true
+			}
+		}
+		lines := map[uint64]uint32{}
+		for _, e := range a.Agent.Log {
+			if e.Kind == "send" && e.Op == "W" && acked[e.ID] {
+				lines[e.Addr/64*64] = e.PID
+			}
+		}
+		var keys []uint64
+		for k := range lines {
+			keys = append(keys, k)
+		}
+		sort.Slice(keys, func(i, j int) bool { return keys[i] < keys[j] })
+		return keys, lines
+	}
+	dataEvents := func() int {
+		n := 0
+		for _, e := range a.Agent.Log {
+			if e.Kind == "send" || e.Kind == "recv" {
+				n++
+			}
+		}
+		return n
+	}
 	o.Panicked, o.Msg = hx.Try(func() {
-		a.Run()
-		for i := 0; i+1 < len(tail); i += 2 {
-			drain, flush := tail[i], tail[i+1]
-			var lvl int
-			fmt.Sscanf(drain.Target, "L%d", &lvl)
-			a.AppendScript(drain)
+		var buf []memasm.Op
+		for _, op := range script {
+			if !(op.Kind == "C" && op.Cmd == "flush") {
+				buf = append(buf, op)
+				continue
+			}
+			a.AppendScript(buf...)
+			buf = nil
 			a.Run()
+			var lvl int
+			fmt.Sscanf(op.Target, "L%d", &lvl)
 			before := a.Dirs()[lvl]
-			a.AppendScript(flush)
+			a.AppendScript(op)
 			a.Run()
 			after := a.Dirs()[lvl]
 			for _, set := range before.Dir.Sets {
@@ -129,8 +185,19 @@ func runE2E(in input) (hx.Case, error) {
 					}
 				}
 			}
-			fls = append(fls, coqFlush(before, after, flush.Addrs, flush.FPID))
+			var checks []string
+			if lvl == lowestWB {
+				keys, lines := writtenLines()
+				for _, k := range keys {
+					checks = append(checks, hx.T(hx.N(k), hx.N(uint64(lines[k])), hx.Bytes(a.BackingRead(k, 64))))
+				}
+			}
+			nchecks += len(checks)
+			fls = append(fls, hx.T(coqFlush(before, after, op.Addrs, op.FPID), hx.Nat(dataEvents()), hx.L(checks)))
+			tags = append(tags, filterTag(op.Addrs, op.FPID))
 		}
+		a.AppendScript(buf...)
+		a.Run()
 	})
 	if o.Panicked {
 		return hx.Case{}, fmt.Errorf("e2e run panicked: %s", o.Msg)
@@ -147,56 +214,62 @@ func runE2E(in input) (hx.Case, error) {
 			}
 		}
 	}
-	if nc != 0 || len(fls)*2 != len(tail) {
+	if nc != 0 || a.Pending() != 0 {
 		o.CtrlOK = false
 	}
 	o.Pending = a.Pending()
 	o.Flushes = len(fls)
-	// written lines (granule: 64 bytes, the largest block size) with their PID
-	acked := map[uint64]bool{}
-	for _, e := range a.Agent.Log {
-		if e.Kind == "recv" && e.Op == "A" {
-			acked[e.RspTo] = true
-		}
-	}
-	lines := map[uint64]uint32{}
-	for _, e := range a.Agent.Log {
-		if e.Kind == "send" && e.Op == "W" && acked[e.ID] {
-			lines[e.Addr/64*64] = e.PID
-		}
-	}
-	var keys []uint64
-	for k := range lines {
-		keys = append(keys, k)
-	}
-	sort.Slice(keys, func(i, j int) bool { return keys[i] < keys[j] })
-	var checks []string
-	for _, k := range keys {
-		checks = append(checks, hx.T(hx.N(k), hx.N(uint64(lines[k])), hx.Bytes(a.BackingRead(k, 64))))
-	}
-	o.Checks = len(checks)
+	o.Checks = nchecks
 	o.Selected = nsel
 	c := hx.Case{Obs: o}
-	c.Coq = hx.App("E2E", c16.CoqTrace(a.Agent.Log), hx.L(fls), hx.B(o.CtrlOK), hx.L(checks))
+	c.Coq = hx.App("E2E", c16.CoqTrace(a.Agent.Log), hx.L(fls), hx.B(o.CtrlOK))
 	for _, cc := range cfg.Caches {
 		c.Tags = append(c.Tags, "e2e:"+cc.Kind)
 	}
-	c.Tags = append(c.Tags, "e2e:mem-"+cfg.Mem.Kind)
-	for i := 1; i < len(tail); i += 2 {
-		f := tail[i]
-		switch {
-		case len(f.Addrs) == 0 && f.FPID == 0:
-			c.Tags = append(c.Tags, "filter:empty")
-		case len(f.Addrs) > 0 && f.FPID != 0:
-			c.Tags = append(c.Tags, "filter:addr+pid")
-		case len(f.Addrs) > 0:
-			c.Tags = append(c.Tags, "filter:addr")
-		default:
-			c.Tags = append(c.Tags, "filter:pid")
-		}
-	}
+	c.Tags = append(c.Tags, "e2e:mem-"+cfg.Mem.Kind, fmt.Sprintf("e2e:flushes-%d", len(fls)))
+	c.Tags = append(c.Tags, tags...)
 	// non-trivial: some dirty line existed at a flush and some written line is checked
-	c.Nontrivial = nsel > 0 && len(checks) > 0
+	c.Nontrivial = nsel > 0 && nchecks > 0
+	return c, nil
+}
+
+func runSeq(in input) (hx.Case, error) {
+	cc := memasm.CacheCfg{Kind: "writeback", Log2Block: log2(in.BS), Ways: 2, Sets: 2, Banks: 1, MSHR: 2, ReqPerCycle: 1,
+		BankLatency: 1, DirLatency: 1, PortBuf: 4}
+	a := memasm.Build(memasm.Config{Caches: []memasm.CacheCfg{cc}, Mem: memasm.MemCfg{Kind: "ideal", NumModules: 1, Latency: 1}})
+	steps := make([]writeback.VerifFlushStep, len(in.Steps))
+	stepT := make([]string, len(in.Steps))
+	for i, st := range in.Steps {
+		steps[i] = writeback.VerifFlushStep{Addrs: st.Addrs, PID: st.PID}
+		rd := make([]string, len(st.Redirty))
+		for k, r := range st.Redirty {
+			steps[i].Redirty = append(steps[i].Redirty, writeback.VerifBlockRef{SetID: r[0], WayID: r[1]})
+			rd[k] = hx.T(hx.Z(int64(r[0])), hx.Z(int64(r[1])))
+		}
+		stepT[i] = hx.T(hx.L(rd), hx.LN(st.Addrs), hx.N(uint64(st.PID)))
+	}
+	var res []writeback.VerifFlushResult
+	o := obs{}
+	o.Panicked, o.Msg = hx.Try(func() { res = writeback.VerifFlushSequence(a.WB[0], memasm.CopyDir(*in.Dir), steps) })
+	if o.Panicked {
+		return hx.Case{}, fmt.Errorf("flush sequence panicked: %s", o.Msg)
+	}
+	obsT := make([]string, len(res))
+	for i, r := range res {
+		xs := make([]string, len(r.Selected))
+		for k, x := range r.Selected {
+			xs[k] = hx.T(hx.Z(int64(x.SetID)), hx.Z(int64(x.WayID)))
+		}
+		o.Selected += len(r.Selected)
+		obsT[i] = hx.T(hx.L(xs), hx.B(r.Finalized), memasm.CoqDir(r.After, true))
+	}
+	c := hx.Case{Obs: o}
+	c.Coq = hx.App("KSeq", hx.N(in.BS), memasm.CoqDir(*in.Dir, true), hx.L(stepT), hx.L(obsT))
+	c.Tags = []string{fmt.Sprintf("seq:flushes-%d", len(in.Steps))}
+	for _, st := range in.Steps {
+		c.Tags = append(c.Tags, filterTag(st.Addrs, st.PID))
+	}
+	c.Nontrivial = o.Selected > 0 && len(in.Steps) >= 2
 	return c, nil
 }
 
@@ -210,6 +283,8 @@ func run(raw json.RawMessage) (hx.Case, error) {
 		return runSel(in)
 	case "e2e":
 		return runE2E(in)
+	case "seq":
+		return runSeq(in)
 	}
 	return hx.Case{}, fmt.Errorf("unknown kind %q", in.Kind)
 }
@@ -279,31 +354,95 @@ func gen(r *hx.Rand, tier string) []json.RawMessage {
 			cfg.Caches[1].Kind = "writeback"
 			cfg.Caches[1] = memasm.RandomCache(r, "writeback", cfg.Caches[1].Log2Block)
 		}
-		// write-heavy tail so that dirty lines exist at the flush
+		// rounds: a slice of the workload, then Drain + Flush of every write-back level top-down,
+		// then Enable; later rounds re-dirty lines flushed earlier (same line pool). Filters are
+		// random in the single-level configurations; the last round always flushes everything.
 		var lines []uint64
 		for _, op := range cfg.Script {
 			lines = append(lines, op.Addr)
 		}
-		for li, cc := range cfg.Caches {
-			if cc.Kind != "writeback" {
-				continue
+		data := cfg.Script
+		rounds := 1 + r.Intn(4)
+		if i%5 == 0 {
+			rounds = 1
+		}
+		var script []memasm.Op
+		quiet := i%3 != 2
+		per := len(data)/rounds + 1
+		for rd := 0; rd < rounds; rd++ {
+			lo, hi := rd*per, (rd+1)*per
+			if hi > len(data) {
+				hi = len(data)
 			}
-			tgt := fmt.Sprintf("L%d", li)
-			fl := memasm.Op{Kind: "C", Cmd: "flush", Target: tgt, Barrier: true}
-			if filtered {
-				switch r.Intn(4) {
-				case 1, 3:
-					for k := 0; k < 1+r.Intn(4); k++ {
-						fl.Addrs = append(fl.Addrs, lines[r.Intn(len(lines))])
+			if lo < hi {
+				script = append(script, data[lo:hi]...)
+			}
+			var drained []string
+			for li, cc := range cfg.Caches {
+				if cc.Kind != "writeback" {
+					continue
+				}
+				tgt := fmt.Sprintf("L%d", li)
+				fl := memasm.Op{Kind: "C", Cmd: "flush", Target: tgt, Barrier: true}
+				if filtered && rd < rounds-1 {
+					switch r.Intn(4) {
+					case 1, 3:
+						for k := 0; k < 1+r.Intn(4); k++ {
+							fl.Addrs = append(fl.Addrs, lines[r.Intn(len(lines))])
+						}
+					}
+					if r.Intn(4) >= 2 && o.PIDs > 0 {
+						fl.FPID = uint32(1 + r.Intn(o.PIDs))
 					}
 				}
-				if r.Intn(4) >= 2 && o.PIDs > 0 {
-					fl.FPID = uint32(1 + r.Intn(o.PIDs))
+				// quiet: Drain/Flush/Enable at barriers; otherwise all three are issued among live
+				// traffic (requests stuck above the draining cache are answered after Enable)
+				fl.Barrier = quiet
+				script = append(script, memasm.Op{Kind: "C", Cmd: "drain", Target: tgt, Barrier: quiet}, fl)
+				drained = append(drained, tgt)
+			}
+			for _, tgt := range drained {
+				script = append(script, memasm.Op{Kind: "C", Cmd: "enable", Target: tgt, Barrier: quiet})
+			}
+		}
+		cfg.Script = script
+		add(input{Kind: "e2e", Cfg: &cfg})
+	}
+	// sequences of flush requests on one flusher (state carried between requests)
+	nseq := nsel / 3
+	for i := 0; i < nseq; i++ {
+		ns, ways := 1+r.Intn(3), 1+r.Intn(4)
+		bs := []int{16, 32, 64}[r.Intn(3)]
+		d := memasm.RandomDir(r, ns, ways, bs, false)
+		var tags []uint64
+		for si := range d.Sets {
+			for wi := range d.Sets[si].Blocks {
+				b := &d.Sets[si].Blocks[wi]
+				b.IsLocked, b.ReadCount = false, 0
+				b.IsDirty = b.IsValid && r.Chance(2, 3)
+				tags = append(tags, b.Tag)
+			}
+		}
+		in := input{Kind: "seq", Dir: &d, BS: uint64(bs)}
+		for k := 0; k < 2+r.Intn(3); k++ {
+			var st seqStep
+			if k > 0 {
+				for q := 0; q < 1+r.Intn(3); q++ {
+					st.Redirty = append(st.Redirty, [2]int{r.Intn(ns), r.Intn(ways)})
 				}
 			}
-			cfg.Script = append(cfg.Script, memasm.Op{Kind: "C", Cmd: "drain", Target: tgt, Barrier: r.Bool()}, fl)
+			switch r.Intn(4) {
+			case 1, 3:
+				for q := 0; q < 1+r.Intn(3); q++ {
+					st.Addrs = append(st.Addrs, tags[r.Intn(len(tags))]+r.U64n(uint64(bs)))
+				}
+			}
+			if r.Intn(4) >= 2 {
+				st.PID = uint32(1 + r.Intn(2))
+			}
+			in.Steps = append(in.Steps, st)
 		}
-		add(input{Kind: "e2e", Cfg: &cfg})
+		add(in)
 	}
 	return out
 }
@@ -314,22 +453,29 @@ func shrink(raw json.RawMessage) []json.RawMessage {
 		return nil
 	}
 	var out []json.RawMessage
-	var data, tail []memasm.Op
-	for _, op := range in.Cfg.Script {
-		if op.Kind == "C" {
-			tail = append(tail, op)
-		} else {
-			data = append(data, op)
+	var dataIdx []int
+	for i, op := range in.Cfg.Script {
+		if op.Kind != "C" {
+			dataIdx = append(dataIdx, i)
 		}
 	}
-	n := len(data)
+	n := len(dataIdx)
 	for _, chunk := range []int{n / 2, n / 4, n / 8, 2, 1} {
 		if chunk < 1 {
 			continue
 		}
 		for i := 0; i+chunk <= n; i += chunk {
+			drop := map[int]bool{}
+			for _, k := range dataIdx[i : i+chunk] {
+				drop[k] = true
+			}
 			c2 := *in.Cfg
-			c2.Script = append(append(append([]memasm.Op{}, data[:i]...), data[i+chunk:]...), tail...)
+			c2.Script = nil
+			for k, op := range in.Cfg.Script {
+				if !drop[k] {
+					c2.Script = append(c2.Script, op)
+				}
+			}
 			in2 := in
 			in2.Cfg = &c2
 			out = append(out, hx.J(in2))
@@ -349,7 +495,9 @@ func init() {
 			"locked / read blocks -> panic outcome) with the four filter shapes (empty / address list incl. unaligned and foreign addresses / PID / both). " +
 			"e2e: random workload (30-120 ops, masks, PIDs) on a real hierarchy with a write-back cache (alone over ideal/banked/DRAM with a random filter, " +
 			"or two levels with empty filters), then Drain + Flush of every write-back level top-down through the Control ports; directory snapshots " +
-			"before/after each flush; every written 64-byte line read directly from the backing Storage. " +
+			"before/after each flush; every written 64-byte line read directly from the backing Storage after each flush of the lowest write-back level. " +
+			"1-4 ROUNDS per run (workload slice -> Drain+Flush -> Enable -> ...): later rounds re-dirty lines flushed earlier, earlier rounds use random filters, the last flushes everything. " +
+			"seq: 2-4 flush requests with re-dirtying in between processed by ONE flusher through its own intake (verif hook), so state carried between requests is tied. " +
 			"Non-trivial: a block was selected / a dirty line existed at a flush and a written line was checked. Distinct = distinct input hash.",
 		Gen: gen, Run: run, Shrink: shrink,
 	})
